@@ -1,19 +1,26 @@
 #!/bin/bash
-# usage: run_seeded.sh [prop ...]   Runs the given checks (default: all claimed) on every seeded mutant; prints a matrix.
+# usage: run_seeded.sh [prop ...]   Runs the given checks (default: all claimed) on every seeded mutant; prints a matrix
+# and records the result in each seeded/<id>/meta.json (detected_by).
 cd /verif
+export GOFLAGS=-mod=mod GOPROXY=off GOSUMDB=off GOTOOLCHAIN=local; unset GOWORK
 props="$@"
 [ -z "$props" ] && props=$(python3 -c "import json;print(' '.join(c['property_id'] for c in json.load(open('MANIFEST.json'))['checks']))")
-(cd checker && GOFLAGS=-mod=mod GOPROXY=off GOSUMDB=off GOTOOLCHAIN=local go build -o ../bin/patcheck .) || exit 2
-for d in seeded/*/; do
+(cd checker && go build -o ../bin/patcheck .) || exit 2
+tmp=$(mktemp -d)
+for d in /verif/seeded/*/; do
   id=$(basename $d)
   if ! git -C /repo diff --quiet; then echo "repo dirty"; exit 2; fi
   git -C /repo apply $d/patch.diff || { echo "$id: patch does not apply"; continue; }
+  for p in $props; do
+    ( ./bin/patcheck -prop $p -tier quick -evidence $tmp/ev_$p.json >$tmp/out_$p.txt 2>&1; echo $? >$tmp/code_$p ) &
+    while [ $(jobs -r | wc -l) -ge 5 ]; do sleep 0.2; done
+  done
+  wait
   hit=""
   for p in $props; do
-    ./bin/patcheck -prop $p -tier quick -evidence /tmp/seeded_ev.json >/tmp/seeded_out.txt 2>&1
-    code=$?
-    [ $code -eq 1 ] && hit="$hit $p"
-    [ $code -gt 1 ] && hit="$hit $p(ERR)"
+    code=$(cat $tmp/code_$p)
+    [ "$code" = 1 ] && hit="$hit $p"
+    [ "$code" != 0 ] && [ "$code" != 1 ] && hit="$hit $p(ERR)"
   done
   git -C /repo checkout -- . ; git -C /repo clean -fdq -- . >/dev/null 2>&1
   echo "$id: detected by:${hit:- NONE}"
@@ -23,3 +30,4 @@ d,hit=sys.argv[1],sys.argv[2].split()
 m=json.load(open(d+'/meta.json')); m['detected_by']=hit; json.dump(m,open(d+'/meta.json','w'),indent=1)
 PY
 done
+rm -rf $tmp
